@@ -11,10 +11,10 @@ class C07(core.Check):
     design_ref = "DESIGN.md §5 C07"
     technique = ("Lean 4 invariant proof over a model of the real-time branch of Doist.do and MonoTimer for an arbitrary clock state machine "
                  "+ differential run of the compiled model against Doist.do under a scripted time.time()/time.sleep()")
-    level_text = "see notes/Timer.md"
-    level_note = ""
+    level_text = ("Lean theorems, unconditional, for EVERY clock behaviour (an arbitrary state machine answering time.time() and reacting to time.sleep: steady, stalled, stepped back anywhere incl. inside the constructor and between Doist() and do(), overshooting or waking early, running out), every fuel, every number of cycles, every pattern of extra clock readings by doers, every tock (set at construction, defaulted, or reassigned before the run) and, for the *_any_history forms, every prior state of the timer: never_early (cycle k>=1 begins only when the sum of the non-negative clock increments since the run's first reading is >= k*tock), lossless (every sleep request equals max(0, (k+1)*tock - elapsed real time seen by the timer): deadlines stay on the k*tock grid whatever the lateness), run_tock_is_tock_at_start, plus the scanning forms the oracle evaluates; proved by an invariant over the pacing loop (stop - last = deadline - elapsed). Model = repaired code (3 fix: commits on fix/timer). The model is tied to Doist.do/MonoTimer by a differential run of the full event log under a scripted time.time/time.sleep; the retro default and Tymist.Tock are re-extracted on every run.")
+    level_note = ("Trusted: Lean kernel + propext/Quot.sound; the sampled correspondence (float arithmetic modelled as Int on integers x 2^-10 s, where doubles are exact); the adapter's monkeypatch of time.time/time.sleep is the only clock. Forward clock jumps are outside the property. Time over Int only (no Rat instance).")
     quick_n = 1500
-    thorough_n = 40000
+    thorough_n = 120000
     rule = ("cases: (pace base incs ovs tock0 pre n xs): Doist(real=True, tock=tock0|default) built, optional pre-run ops (peek at timer.elapsed, assign doist.tock), "
             "then do() with one doer living n cycles that makes xs[k] extra clock readings in cycle k; the m-th time.time() returns base+incs[0..m] "
             "(steady / stalled / stepped back at every position, incl. inside the constructor and between construction and do()); the j-th time.sleep(d) advances the clock by d+ovs[j] "
